@@ -8,7 +8,10 @@ def split_frontmatter(text: str) -> tuple[str, str]:
     rest of the document. If no frontmatter is found, returns an empty string
     and the original text.
     """
-    lines = text.splitlines()
+    # Only LF and CRLF are line ends here. `str.splitlines()` would also split on
+    # VT, FF, FS, GS, RS, NEL, LS and PS and so rewrite such characters inside
+    # YAML values (and in the body) as newlines.
+    lines = text.replace("\r\n", "\n").split("\n")
 
     # Skip empty lines at the beginning
     start_idx = 0
